@@ -507,3 +507,58 @@ Example close_stops_nonvacuous :
   loop_is (final c init_state [StartHunt (mkAddr wit_m1 3232235522); Wake 0; Close; Wake 0]) 0
           (mkAddr wit_m1 3232235522) false.
 Proof. vm_compute. split; reflexivity. Qed.
+
+(* ---------------------------------------------------------------- *)
+(* "periodically while hunted": while the handler is open every hunted MAC has a running loop of its own *)
+
+Definition covered (s : state) : Prop :=
+  closed s = false -> forall m, hunted s m = true -> exists i a, loop_is s i a true /\ amac a = m.
+
+Lemma covered_step c s e : covered s -> covered (fst (step c s e)).
+Proof.
+  intros Hcov Hc' m Hm.
+  assert (Hc : closed s = false).
+  { destruct (closed s) eqn:E; auto. rewrite (step_closed_mono c s e E) in Hc'. discriminate. }
+  specialize (Hcov Hc).
+  destruct e; simpl in *.
+  - (* StartHunt *)
+    unfold start_hunt in *. destruct (hunt_has (amac a) (hunt s)) eqn:Hh; simpl in *; [apply Hcov; exact Hm|].
+    unfold hunted in Hm. simpl in Hm. rewrite hunt_has_app in Hm. apply orb_true_iff in Hm as [Hm|Hm].
+    + destruct (Hcov m Hm) as [i [a0 [Hl Ha]]]. exists i, a0. split; auto.
+      unfold loop_is in *. simpl. apply nth_error_app_l. exact Hl.
+    + exists (List.length (loops s)), a. split; [|lia].
+      unfold loop_is. simpl. rewrite nth_error_app2 by lia. rewrite Nat.sub_diag. reflexivity.
+  - apply Hcov; exact Hm.
+  - (* StopHunt *)
+    unfold hunted in Hm. simpl in Hm.
+    assert (Hm' : hunt_has m (hunt s) = true).
+    { destruct (N.eq_dec m m0) as [->|Hne]; [rewrite hunt_has_del_same in Hm; discriminate|].
+      rewrite hunt_has_del_other in Hm; auto. }
+    destruct (Hcov m Hm') as [i [a0 [Hl Ha]]]. exists i, a0. split; auto.
+  - discriminate.
+  - (* Wake *)
+    unfold hunted in Hm. rewrite wake_hunt in Hm.
+    destruct (Hcov m Hm) as [j [a0 [Hl Ha]]]. exists j, a0. split; auto.
+    destruct (Nat.eq_dec i j) as [->|Hne].
+    + assert (Hst : step c s (Wake j) = (s, [announce c (amac a0)])).
+      { apply hunted_wake_announces; auto. rewrite Ha. exact Hm. }
+      simpl in Hst. rewrite Hst. exact Hl.
+    + unfold loop_is. rewrite wake_loops_other by auto. exact Hl.
+  - rewrite rx_state in *. apply Hcov; exact Hm.
+  - apply Hcov; exact Hm.
+Qed.
+
+Theorem hunted_has_loop : forall c evs m,
+  let s := final c init_state evs in
+  closed s = false -> hunted s m = true ->
+  exists i a, loop_is s i a true /\ amac a = m /\ step c s (Wake i) = (s, [announce c m]).
+Proof.
+  intros c evs m s Hc Hm.
+  assert (Hcov : covered s).
+  { unfold s. apply (final_inv covered (fun _ => true) c).
+    - intros s' e H _. apply covered_step; auto.
+    - intros _ m' H'. discriminate.
+    - apply forallb_forall. auto. }
+  destruct (Hcov Hc m Hm) as [i [a [Hl Ha]]]. exists i, a. split; auto. split; auto.
+  rewrite <- Ha. apply hunted_wake_announces; auto. rewrite Ha. exact Hm.
+Qed.
